@@ -74,6 +74,9 @@ def run(rep, tier, seed, replay=None):
         dumps[cid] = d
         view_cases.append(" ".join([cid + "v", "view", d["file"], d["type"], d["pfile"] or "-", d["ptype"] or "-"] + tok(d["self"])))
     model = vlib.run_model(view_cases)
+    # the property oracle: the INTENDED view (Spec/Views.lean) evaluated on the dumped protocol-specific value is what
+    # as_json() must contain, whatever the accessors in the source currently say
+    intended = vlib.run_model([vc.replace(" view ", " view-intended ", 1).replace("v view-intended", "i view-intended", 1) for vc in view_cases])
     seen_types = set()
     for vc in view_cases:
         cid = vc.split(" ", 1)[0]
@@ -85,6 +88,10 @@ def run(rep, tier, seed, replay=None):
         rep.count("type:" + d["type"] + "@" + d["file"])
         if m != want:
             rep.divergences.append((vc, m, want, "generated accessor tables evaluated on the dumped value differ from as_json()"))
+        iv = intended.get(cid[:-1] + "i", "<no output>")
+        if iv not in ("no-such-view", "<no output>") and iv != want:
+            rep.oracle_failures.append(("view-differs-from-fields:" + d["type"] + "@" + d["file"],
+                                        f"as_json() is {want[:300]} but the protocol-specific fields give {iv[:300]}", vc, json.dumps(d["json"])[:200]))
         # the property on the implementation alone
         acc, j = d["acc"], d["json"]
         for k in ORDER[:-1]:
